@@ -95,6 +95,9 @@ def read_dbc(text):
             s = msgs[int(m.group(1))]["signals"][m.group(2)]
             s["mux_ids"] = ids
             s["mux_signal"] = m.group(3)
+            # extended multiplexing: the SG_MUL_VAL_ relation is authoritative (cantools writes a signal that is both a
+            # switch and switched as "M" in its SG_ line and states the rest here)
+            s["muxed"] = True
             continue
         m = VALTYPE.match(line)
         if m:
@@ -181,8 +184,22 @@ def gen_can_desc(rng, mode):
                         if f[2][0] in ("u", "i") and rng.random() < 0.35:
                             blocks.append(f'    signal {f[0]} {{ endianess: "big", }},')
                 elif len(scal) >= 2 and rng.random() < 0.3:
-                    mux, muxed = rng.sample(scal, 2)
-                    blocks.append(f'    signal {muxed[0]} {{ mux_count: {rng.randint(1, 4)}, mux_signal: "{mux[0]}", }},')
+                    # one to three multiplexed signals: one switch, several independent switches, or a chain
+                    rel = {}
+                    for muxed in rng.sample(scal, min(len(scal) - 1, rng.choice([1, 1, 2, 3]))):
+                        cands = [f for f in scal if f[0] != muxed[0]]
+                        rng.shuffle(cands)
+                        for mux in cands:
+                            x, ok = mux[0], True
+                            while x in rel:  # no cycles
+                                x = rel[x]
+                                if x == muxed[0]:
+                                    ok = False
+                                    break
+                            if ok:
+                                rel[muxed[0]] = mux[0]
+                                blocks.append(f'    signal {muxed[0]} {{ mux_count: {rng.randint(1, 4)}, mux_signal: "{mux[0]}", }},')
+                                break
                 alias = f"as {name}x{k}" if k else ""
                 bus = "" if rng.random() < 0.5 else f'    bus: "{rng.choice(["b1", "b2", "b3"])}",\n'
                 dev = "" if rng.random() < 0.6 else f'    device: "{rng.choice(["ecu", "bms"])}",\n'
